@@ -120,7 +120,7 @@ def check(run):
             g = glue(ms, False)
             import re as _re
             g = _re.sub(r"explore\(m, &mk, (\d+), &make, \d+, \d+,", r"explore(m, &mk, \1, &make, 2, 6,", g)
-            mu.append(shards.Unit("u_m%d" % j, g, meta={"enum_src": ms.render()}, sig="miri,N=%d" % n))
+            mu.append(shards.Unit("u_m%d" % j, g, meta={"enum_src": ms.render(), "bare_src": ms.render_bare()}, sig="miri,N=%d" % n))
         miri.run_miri(run, mu)
     pick_samples(run, samples, {u.name: u for u in units})
     run.extra["programs"] = len(units)
